@@ -123,9 +123,15 @@ def r3(ctx, retsets):
         and not vf.mentions(other[0], lambda y: isinstance(y, tuple) and y[0] == "bin")
     ctx.check(uses_expire, "C07.R3", "expiry-uses-expire_interval", ci.loc(),
               "deadline = last_update + %s" % (vf.show(other[0]) if other else "?"), key="C07.R3:deadline")
-    strict_expired = (orient == "sum?now" and pred in ("slt", "ult")) or (orient == "now?sum" and pred in ("sgt", "ugt"))
-    ctx.check(strict_expired, "C07.R3", "expiry-comparison", ci.loc(),
-              "records expire when last_update + expire_interval < now (found: %s %s)" % (orient, pred), key="C07.R3:comparison")
+    # the comparison must be 'deadline < now' or its exact negation 'deadline >= now' (either operand order)
+    p_ = pred[1:]
+    if orient == "now?sum":
+        p_ = {"lt": "gt", "gt": "lt", "le": "ge", "ge": "le"}[p_]
+    true_means_expired = {"lt": True, "ge": False}.get(p_)      # 'le' / 'gt' are off by one at deadline == now
+    ctx.check(true_means_expired is not None, "C07.R3", "expiry-comparison", ci.loc(),
+              "records expire when last_update + expire_interval < now (found: deadline %s now)" % {"lt": "<", "ge": ">=", "le": "<=", "gt": ">"}[p_], key="C07.R3:comparison")
+    if true_means_expired is None:
+        true_means_expired = True
     now_alloca = vf.root_of(vf.expr(fn, ci["b"] if orient == "sum?now" else ci["a"]))
     clock = [c for c in fn.calls("lrtr_get_monotonic_time")]
     ctx.check(len(clock) == 1 and vf.expr(fn, clock[0].args[0]) == now_alloca and fn.dom(clock[0], ci), "C07.R3", "now-from-clock",
@@ -137,7 +143,7 @@ def r3(ctx, retsets):
     for name, cell, clk, expired, want_purge in cells:
         def oracle(inst, pred_, a, b, E, expired=expired):
             if inst.id == ci.id and expired is not None:
-                return expired
+                return expired if true_means_expired else not expired
             return None
 
         def classify(inst, E, st, clk=clk):
